@@ -206,6 +206,7 @@ func runSeq(sc seqCase, replay bool) (*wk.Failure, *simrt.Result, []string, int)
 	var leakAt = -1
 	var leak simrt.LeakInfo
 	var lingerAt = -1
+	var idleAfter = -1 // index of the call whose tasks the harness is waiting for
 	var lingerSteps, maxLinger int64
 	var outcomes []string
 	done := 0
@@ -225,7 +226,9 @@ func runSeq(sc seqCase, replay bool) (*wk.Failure, *simrt.Result, []string, int)
 			done++
 			// the call has returned: let every remaining task run until nothing can move
 			stepsAtReturn := simrt.Steps()
+			idleAfter = i
 			leaks := simrt.Idle()
+			idleAfter = -1
 			if d := simrt.Steps() - stepsAtReturn; d > maxLinger {
 				maxLinger = d
 				if d > LingerLimit && lingerAt < 0 {
@@ -246,8 +249,18 @@ func runSeq(sc seqCase, replay bool) (*wk.Failure, *simrt.Result, []string, int)
 		}
 	})
 	lastLinger = maxLinger
+	if res.Budget && idleAfter >= 0 {
+		// the budget ran out while the harness waited for the tasks of a call that HAD returned: they
+		// never stopped working (a poller, a retry loop)
+		c := sc.Calls[idleAfter]
+		out := sc
+		b, _ := json.Marshal(out)
+		return &wk.Failure{Class: "lingering", Site: "a task started by the call kept working after the call had returned",
+			Detail: fmt.Sprintf("after call %d (%s %q) returned, the tasks it had started were still running when the step budget ran out (at %s)", idleAfter, c.Entry, trunc(c.Input+strings.Join(c.Files, "|"), 120), SiteName(res.AbortSite)),
+			Replay: b}, res, outcomes, done
+	}
 	if res.Budget || res.Deadlock {
-		// that is C05's verdict, not a leak
+		// the call itself did not return: that is C05's verdict, not a leak
 		return nil, res, outcomes, done
 	}
 	if lingerAt >= 0 && leakAt < 0 {
